@@ -702,3 +702,81 @@ def _sep_rule(ck, F):
               "%s builds arrays with pushes %s: rows must be joined with row_separator, elements with col_separator and no extra braces "
               "(the parser reads {a,b;c,d}, not {{a;b},{c;d}})" % (pname, pushes), pb.file, pb.line,
               sample={"printer": pname, "pushes": [list(map(str, p)) for p in pushes]})
+
+
+def _name_field_of(b, op, NODE):
+    """Node variant whose `name` field the operand denotes (through refs, copies and Deref/as_str/borrow calls), or None"""
+    from mir import place_proj
+    cur = op
+    for _ in range(8):
+        tr = b.trace(cur)
+        pl = None
+        if tr["kind"] == "place":
+            pl = tr["place"]
+        elif tr["kind"] == "call":
+            q = (b.callee_q(tr["t"]) or "").rsplit("::", 1)[-1]
+            if q in ("deref", "as_str", "borrow", "as_ref", "clone", "to_string", "to_owned") and tr["t"]["args"]:
+                cur = tr["t"]["args"][0]
+                continue
+            return None
+        else:
+            rt = b.ref_target(cur)
+            pl = rt
+        if pl is None:
+            return None
+        rp = b.resolve_place(pl, through_named=True)
+        for e in place_proj(rp):
+            if e[0] == "f" and e[3] == NODE and e[2] == "name" and e[4]:
+                return e[4]
+        return None
+    return None
+
+
+def ident_case(ck, F, rule="LIT"):
+    """Identifiers survive the printer's case folding: the Node kinds whose `name` the printer writes through
+    to_lowercase()/to_uppercase() (called LET/LAMBDA variables, named functions) are never compared by exact string
+    equality anywhere else in the crate -- every comparison of such a name goes through a case fold on both sides --
+    so the stored text (`f(2)` for a variable declared as `F`) still binds after a reload."""
+    from mir import op_place, place_proj
+    from rules_attr import sources
+    NODE = "ironcalc_base::expressions::parser::Node"
+    folded = set()
+    for path in sorted(F.body_paths()):
+        if "stringify" not in path:
+            continue
+        b = F.body(path)
+        for bi, t in b.calls():
+            q = (b.callee_q(t) or "").rsplit("::", 1)[-1]
+            if q not in ("to_lowercase", "to_uppercase", "to_ascii_lowercase", "to_ascii_uppercase") or not t["args"]:
+                continue
+            v = _name_field_of(b, t["args"][0], NODE)
+            if v:
+                folded.add(v)
+    ck.ob(rule, "ident-case|folded kinds", len(folded) >= 1, "no case-folded identifier kind found in the printer (anchor lost?)")
+    n = 0
+    for path in sorted(F.body_paths()):
+        h = F.heads[path]
+        if h["crate"] != "ironcalc_base" or "/test" in h["file"]:
+            continue
+        raw = F._raw.get(path, "")
+        if '"name"' not in raw:
+            continue
+        if h.get("impl_trait") and "PartialEq" in str(h.get("impl_trait")):
+            continue      # structural equality of whole nodes (derive(PartialEq)) is not a name lookup
+        b = F.body(path)
+        for bi, t in b.calls():
+            q = b.callee_q(t) or ""
+            last = q.rsplit("::", 1)[-1]
+            if last not in ("eq", "ne") or len(t["args"]) != 2:
+                continue
+            for a in t["args"]:
+                v = _name_field_of(b, a, NODE)
+                hit = v if v in folded else None
+                if hit:
+                    n += 1
+                    f, l = b.loc(bi)
+                    qn = b.qname.split("::", 1)[-1]
+                    ck.ob(rule, "ident-case|%s compares %s.name exactly" % (qn, hit), False,
+                          "%s compares the name of a Node::%s with `==`, but the printer writes that name case-folded: after a save/reload "
+                          "(or a copy of the displayed formula) a variable declared as `F` and called as `f(..)` no longer binds (#NAME?)" % (qn, hit), f, l)
+    ck.ob(rule, "ident-case|no exact comparison of folded names", True, sample={"folded_kinds": sorted(folded), "exact_comparisons": n})
